@@ -100,6 +100,13 @@ impl Syntax for K {
     fn into_raw(self) -> cstree::RawSyntaxKind { cstree::RawSyntaxKind(self.0) }
     fn static_text(self) -> Option<&'static str> { None }
 }
+#[derive(Debug, Clone, Copy, PartialEq, Eq)]
+pub struct KP(u32, std::marker::PhantomData<*const ()>);
+impl Syntax for KP {
+    fn from_raw(raw: cstree::RawSyntaxKind) -> Self { KP(raw.0, std::marker::PhantomData) }
+    fn into_raw(self) -> cstree::RawSyntaxKind { cstree::RawSyntaxKind(self.0) }
+    fn static_text(self) -> Option<&'static str> { None }
+}
 struct RawPtr(*const u8);
 struct SendOnly(Cell<u8>);           // Send, not Sync
 struct SyncOnly(std::sync::MutexGuard<'static, u8>);   // Sync, not Send
@@ -150,14 +157,41 @@ def gen_c08(seed, tier):
                                expect=False, what=f"D: Send only: {marker}::<{ty}>"))
             probes.append(dict(desc=f"marker generic {marker} 0 1 1 1", code=None, generic=f"fn {{name}}<D: Sync + 'static>() {{ {marker}::<{ty}>(); }}",
                                expect=False, what=f"D: Sync only: {marker}::<{ty}>"))
-    # resolvers: a tree can only be given a resolver that is thread-safe
+    # resolvers: a tree can only be given a resolver that is thread-safe (through either constructor, for either marker)
     for (r, rs, ry) in RESOLVERS:
-        probes.append(dict(desc=f"marker resolver send 1 1 {int(rs)} {int(ry)}",
-                           code=f"let t: ResolvedNode<K> = SyntaxNode::new_root_with_resolver(green(), {r}); fn s<T: Send>(_: T) {{}} s(t);",
-                           expect=rs and ry, what=f"send a tree with resolver {r}"))
-        probes.append(dict(desc=f"marker resolver sync 1 1 {int(rs)} {int(ry)}",
-                           code=f"let t: ResolvedNode<K> = ResolvedNode::new_root_with_resolver(green(), {r}); fn s<T: Sync>(_: &T) {{}} s(&t);",
-                           expect=rs and ry, what=f"share a tree with resolver {r}"))
+        for ctor in ("SyntaxNode", "ResolvedNode"):
+            probes.append(dict(desc=f"marker resolver send 1 1 {int(rs)} {int(ry)}",
+                               code=f"let t: ResolvedNode<K> = {ctor}::new_root_with_resolver(green(), {r}); fn s<T: Send>(_: T) {{}} s(t);",
+                               expect=rs and ry, what=f"send a tree with resolver {r} attached by {ctor}::new_root_with_resolver"))
+            probes.append(dict(desc=f"marker resolver sync 1 1 {int(rs)} {int(ry)}",
+                               code=f"let t: ResolvedNode<K> = {ctor}::new_root_with_resolver(green(), {r}); fn s<T: Sync>(_: &T) {{}} s(&t);",
+                               expect=rs and ry, what=f"share a tree with resolver {r} attached by {ctor}::new_root_with_resolver"))
+    # the syntax kind type is never stored in a tree: it does not matter for the markers (generic and a kind type
+    # without the auto traits)
+    for h in handles[:3]:
+        for marker in ("send", "sync"):
+            ty = h.replace("K,", "S,").replace("{D}", "D")
+            probes.append(dict(desc=f"marker kindfree {marker} 1 1 1 1", code=None,
+                               generic=f"fn {{name}}<S: Syntax, D: Send + Sync + 'static>() {{ {marker}::<{ty}>(); }}",
+                               expect=True, what=f"any S: Syntax, D: Send + Sync: {marker}::<{ty}>"))
+            ty = h.replace("K,", "KP,").replace("{D}", "String")
+            probes.append(dict(desc=f"marker kindfree {marker} 1 1 1 1", code=f"{marker}::<{ty}>();", expect=True,
+                               what=f"kind type without auto traits: {marker}::<{ty}>"))
+    # lazy text views pair a node with a caller-supplied resolver: they are as thread-safe as both
+    for (r, rs, ry) in [("GoodResolver", True, True), ("RcResolver", False, False), ("CellResolver", True, False)]:
+        for (d, ds, dy) in [("()", True, True), ("Rc<()>", False, False)]:
+            for marker in ("send", "sync"):
+                ty = f"cstree::text::SyntaxText<'static, 'static, {r}, K, {d}>"
+                probes.append(dict(desc=f"marker text {marker} {int(ds)} {int(dy)} {int(rs)} {int(ry)}", code=f"{marker}::<{ty}>();",
+                                   expect=ds and dy and ry, what=f"{marker}::<{ty}>"))
+    for marker in ("send", "sync"):
+        ty = "cstree::text::SyntaxText<'static, 'static, I, K, ()>"
+        probes.append(dict(desc=f"marker textgeneric {marker} 1 1 0 0", code=None,
+                           generic=f"fn {{name}}<I: Resolver<TokenKey> + 'static>() {{ {marker}::<{ty}>(); }}",
+                           expect=False, what=f"unconstrained resolver: {marker}::<{ty}>"))
+        probes.append(dict(desc=f"marker textgeneric {marker} 1 1 1 1", code=None,
+                           generic=f"fn {{name}}<I: Resolver<TokenKey> + Send + Sync + 'static>() {{ {marker}::<{ty}>(); }}",
+                           expect=True, what=f"thread-safe resolver: {marker}::<{ty}>"))
     # green elements are always sendable and shareable
     for ty in ["GreenNode", "GreenToken", "cstree::util::NodeOrToken<GreenNode, GreenToken>"]:
         for marker in ("send", "sync"):
